@@ -23,6 +23,9 @@ def build(tier):
     vf.add(LA.PRELUDE)
     vhelp.typedef(vf, src, "ScalarCount", "enum", derive="#[derive(Copy, Clone, PartialEq, Eq, Structural)]")
     vf.add("""
+// std: smallest power of two >= self (only this much is assumed)
+pub assume_specification [usize::next_power_of_two] (a: usize) -> (r: usize) ensures r >= a;
+pub assume_specification [usize::next_multiple_of] (a: usize, b: usize) -> (r: usize) requires b > 0 ensures r >= a, r % b == 0;
 // the recursive call on the payload, through its contract (unit layout_arith's callee contract: power-of-two alignment, size a multiple of it)
 pub uninterp spec fn ty_size<P>(t: &Type<P>, tcx: &TypeContext) -> usize;
 pub uninterp spec fn ty_align<P>(t: &Type<P>, tcx: &TypeContext) -> usize;
